@@ -262,3 +262,24 @@ def plant_front_s(draw, sd, space, kinds=('Key', 'Box', 'Floor', 'Door')):
     sd['grid'][f[0]][f[1]] = draw(obj_s({'types': [k] + ([t for t in space['types'] if t != 'Box'] if k == 'Box' else []), 'colors': space['colors']}, 1)
                                   .filter(lambda o: obj_type(o) == k))
     return sd
+
+
+def grow(d, H, W):
+    """tile the grid of a small descriptor to H x W (cheap in generator entropy: large members from small draws)"""
+    h, w = len(d['grid']), len(d['grid'][0])
+    a = list(d['agent'])
+    a[0], a[1] = min(a[0], H - 1), min(a[1], W - 1)       # the large grid may be smaller than the tile in one dimension
+    return {'grid': [[d['grid'][y % h][x % w] for x in range(W)] for y in range(H)], 'agent': a}
+
+
+@st.composite
+def big_shape_s(draw, kind):
+    """shapes around the integer-width boundaries (127/128, 255/256) in one dimension, or moderately large in both"""
+    long = draw(st.sampled_from([40, 64, 127, 128, 129, 200, 255, 256, 257, 300]))
+    if kind == 'obs':
+        short = draw(st.sampled_from([1, 3, 5]))
+        return (long, short) if draw(st.booleans()) else (draw(st.sampled_from([2, 3, 4])), long + (1 - long % 2))
+    if draw(st.integers(0, 3)) == 0:
+        return (draw(st.integers(20, 40)), draw(st.integers(20, 40)))
+    short = draw(st.integers(2, 4))
+    return (long, short) if draw(st.booleans()) else (short, long)
